@@ -8,7 +8,8 @@ from ..chain import COINS
 from ..core import viol
 
 RULE = ("spend histories over the event alphabet {create addr / address-less / zero-value / 260-output tx, spend latest, fan-in of a whole "
-        "tx, spend unknown outpoint, duplicate txid, double reference of one outpoint, spender placed before the creator inside a block}: "
+        "tx, spend unknown outpoint, duplicate txid, double reference of one outpoint, spender placed before the creator inside a block, "
+        "fan-in whose first input is the null outpoint}: "
         "ALL sequences of <=4 (quick) / <=5 (thorough) events (the many-output tx has 260 outputs for <=3 events, 3 beyond), each in every split over <=3 blocks (independent lanes packed into one chain "
         "per split), x ranges (full, --start inside, --end inside) x 3 coins; plus random long histories of 50..5000 events with shared "
         "state; plus a transaction with 65,540 outputs (indices beyond 16 bits). Real unspentcsvdump runs; the row multiset (header first, no duplicates) and the completion totals must equal the model "
